@@ -30,6 +30,8 @@ def check(ix, rep):
     rep.floor('look-ups / instantiations by a name taken from the specification', nd, 2)
     P.check_string_index(ix, rep)
     P.check_interval_guard(ix, rep)
+    ng = P.check_interval_guard_units(ix, rep)
+    rep.floor('unit cases of the begin<=end guard', ng, 4)
     nb = P.check_builder_exhaustive(ix, rep, grammars)   # "never silently accepts": an alternative without builder drops its operator
     rep.floor('grammar alternatives with a builder obligation', nb, 70)
     nt = P.check_termination(ix, rep, [ltl, stl])
